@@ -70,7 +70,10 @@ CHECKS["C19"] = dict(
          "Structure instances --, instance/class fingerprints) is compared in Coq with the effect predicted from the generated "
          "facts for every (operation, owner kind, type, value shape), and the property's clauses are evaluated on the observations. "
          "Streams: random classes (plain / FastSerializable / ImmutableStructure / fields declared immutable), a deterministic "
-         "lattice owner x untyped-position type x python kind of value, wrapper mutators (append, setitem, update, ...), failing "
+         "lattice owner x untyped-position type x python kind of value, wrapper mutators (append, setitem, update, ...), DONORS (the live "
+         "value of another instance's nested collection field handed to constructor / setattr / shallow_clone_with_overrides / cast_to / "
+         "from_other_class / Deserializer / as inner element, same class and immutable twins, then inner elements updated through the "
+         "donor's and the receiver's own mutators), failing "
          "construct/deserialize, Versioned deserialization, schema/code generation, derivation, convert_dict. The proofs cover the "
          "aliasing and copy-decision logic; the generated facts and the differential cover the code.",
     design="DESIGN.md §6 C19, §12",
@@ -78,8 +81,8 @@ CHECKS["C19"] = dict(
          "(fail closed to UnknownEff / YUnknownTy); hand-written models Struct/Alias.v and Struct/AliasIntake.v (validated by "
          "correspondence, not derived); harness snapshots/fingerprints; CPython. The two models are not connected by a theorem "
          "(the store model has no immutable containers). Untyped Array/Map/Anything content of MUTABLE owners is outside the claim "
-         "(checked against the model, never reported); getters (x.f, x.f[i]) are not operations of the property. Three open known "
-         "findings (trusted deserialization, untyped ImmutableMap, foreign wrapper in an immutable owner).",
+         "(checked against the model, never reported); getters (x.f, x.f[i]) are not operations of the property. Four open known "
+         "findings (trusted deserialization, untyped ImmutableMap, foreign wrapper in an immutable owner, untyped content of a donor wrapper).",
     technique="Coq proof (noninterference over a store model, induction over mutation histories; characterisation of the "
               "defensive-copy tables by induction over field types) + generated effect sites and isinstance tables + "
               "model/implementation correspondence in vm_compute")
